@@ -11,7 +11,9 @@ GEN_GROUPS = ["Stats"]
 MODS = ["public", "private", "protected", "static", "final", "abstract", "synchronized"]
 NAMES = ["getUserName", "setValue", "findAllByIdAndName", "parseJSONData", "run", "a", "toURL", "process2Items", "x1", "save_all",
          "handleHTTPRequest", "isValid", "of", "MAX", "updateUser", "user", "userRepositoryImpl", "sha256Hex", "v2", "get", "Item9",
-         "findUser", "findAll", "createOrder", "createInvoice", "updateOrder"]
+         "findUser", "findAll", "createOrder", "createInvoice", "updateOrder",
+         # separators at an end of the name, doubled, or after a digit run: no empty "word" may be counted
+         "_loadOrder", "shipOrder_", "test__cancelOrder", "step2_archiveInvoice"]
 
 
 FAMILIES = [["findUser", "findAll", "findAllByIdAndName"], ["reserveItem", "reserveBatch"], ["sendWelcome", "sendReceipt", "sendAll"],
